@@ -52,7 +52,7 @@ def opZ64 (op : String) (a : Args) : Option String := do
       | (.err e, _) => (Out.className e).replace " " ":"
       | (.panic _, _) => "panic"
     some s!"bytes={toHex bytes} end={p1} loc={p2}"
-  | "z64.big" | "z64.cguard" => some "oracle-only"
+  | "z64.big" | "z64.cguard" | "z64.pos" => some "oracle-only"
   | _ => none
 
 end Driver
